@@ -326,7 +326,7 @@ func runTopo(e *Env) {
 			}
 		}
 		pick := func() *node.Host { return others[tp.Next(len(others))] }
-		ws := []int{3, 3, 2, 2, 2, 2, 1, 1, 2, 1, 2, 0, 2, 0, 0, 0, 0}
+		ws := []int{3, 3, 2, 2, 2, 2, 1, 1, 2, 1, 2, 0, 2, 0, 0, 0, 0, 2}
 		if len(others) >= 2 {
 			ws[16] = 2
 		}
@@ -343,7 +343,7 @@ func runTopo(e *Env) {
 			ws[0], ws[13], ws[14], ws[15] = 0, 0, 0, 0
 		}
 		if e.NoFaults {
-			ws = []int{1, 0, 0, 0, 0, 0, 0, 0, 1, 0, 0, 0, 0, 0, 0, 0, 0}
+			ws = []int{1, 0, 0, 0, 0, 0, 0, 0, 1, 0, 0, 0, 0, 0, 0, 0, 0, 0}
 		}
 		peersBefore := cl.PeerQueries
 		preDown := map[string]bool{} // reported down before this step
@@ -360,6 +360,45 @@ func runTopo(e *Env) {
 			if tp.Chance(1, 2) {
 				st.eventFor("STATUS_CHANGE", "UP", h)
 			}
+		case 17: // the node of the control connection is unreachable for a while (a restart):
+			// every connection to it drops, dials are refused, then it accepts connections
+			// again - and nobody sends an event about it (in a one-node cluster nobody can)
+			var ch *node.Host
+			for _, h := range cl.Hosts {
+				if h.Addr == ctrlAddr {
+					ch = h
+				}
+			}
+			if ch == nil {
+				break
+			}
+			k.Rec("step control node %s restarts (no events)", ctrlAddr)
+			k.Fault("topo.control-node-restarts-silently")
+			st.unreachable(ctrlAddr)
+			// long enough for the driver to give up its refill and mark the node down
+			settle([]time.Duration{2 * time.Second, 500 * time.Millisecond, 6 * time.Second}[tp.Next(3)])
+			st.reachable(ctrlAddr)
+			delete(st.down, ctrlAddr)
+			if len(cl.Hosts) > 1 {
+				// the other nodes notice and say so (to whichever node the control connection
+				// has moved to meanwhile); a node that is alone has nobody to announce it
+				st.eventFor("STATUS_CHANGE", "UP", ch)
+			}
+			// the control connection finds its way back (it retries on its own), and with it
+			// the node must get its pool back
+			settle(8 * time.Second)
+			// (in a cluster of several nodes the control connection may have moved; the node it
+			// is on now describes itself in its local row - an invalid peer row about it no longer
+			// reaches the session - and is plainly up, whatever was reported about it before)
+			if c := sess.VerifControlConn(); c != nil {
+				if name := ConnName(c); strings.Contains(name, "#") {
+					ctrlAddr = name[:strings.Index(name, "#")]
+				}
+			}
+			if st.invalidFor == ctrlAddr {
+				st.invalidFor = ""
+			}
+			delete(st.down, ctrlAddr)
 		case 16: // two nodes move at once, the first to the address the second gives up
 			a := pick()
 			b := pick()
